@@ -13,6 +13,7 @@ from .npmodel import cast, raise_py
 ST = z3.DeclareSort('RngState')
 SHUF = z3.Function('shuffle_perm', z3.IntSort(), z3.IntSort(), z3.IntSort())
 SHUFINV = z3.Function('shuffle_perm_inv', z3.IntSort(), z3.IntSort(), z3.IntSort())
+SHUFST = None      # shuffle_state(k): generator state consumed by the k-th logged shuffle (declared once ST exists)
 SEED_STATE = z3.Function('seed_state', z3.IntSort(), ST)
 GSEED = z3.Function('gseed', z3.IntSort(), ST)
 G0 = z3.Const('G0', ST)
@@ -173,6 +174,7 @@ def register(M):
             # ghost log: the permutation used in the k-th iteration of the enclosing loop
             r = bvar('r')
             st.assume(forall([r], IMPLIES(in_range(r, 0, n), AND(SHUF(Z(kq), r) == f(r), in_range(SHUF(Z(kq), r), 0, n), SHUFINV(Z(kq), SHUF(Z(kq), r)) == r))))
+            st.assume(F('shuffle_state', z3.IntSort(), ST)(Z(kq)) == s0)       # which generator state that shuffle consumed
         ex.use('A-RNG:shuffle permutes the rows in place by a bijection determined by the generator state')
         ex.write_ref(x, new, st, node, 'rng.shuffle')
         ex.write_ref(base, SGen(F('adv_shuffle', ST, z3.IntSort(), ST)(s0, Z(n))), st, node)
@@ -286,6 +288,10 @@ def register(M):
     B['global_is'] = b_global_is
 
     B['shuffle_perm'] = lambda args, kw, st, node: SHUF(Z(num(args[0])), Z(num(args[1])))
+    B['shuffle_state'] = lambda args, kw, st, node: ('rngstate', F('shuffle_state', z3.IntSort(), ST)(Z(num(args[0]))))
+    B['gen_state'] = lambda args, kw, st, node: ('rngstate', state_of(args[0], st))
+    B['adv_shuffle'] = lambda args, kw, st, node: ('rngstate', F('adv_shuffle', ST, z3.IntSort(), ST)(state_of(args[0], st), Z(num(args[1]))))
+    B['same_state'] = lambda args, kw, st, node: state_of(args[0], st) == state_of(args[1], st)
 
     def b_g_mvn(args, kw, st, node):
         G = state_of(args[0], st)
